@@ -82,10 +82,28 @@ def run_case(case):
     for s in prog.stmts:
         if isinstance(s, Decl):
             bare = s.e
-            while isinstance(bare, lang.Paren):
-                bare = bare.e
+            while isinstance(bare, lang.Paren) or (isinstance(bare, lang.Un) and bare.op == "+") or (
+                    isinstance(bare, lang.Proj) and isinstance(bare.ty, lang.TypeOf) and isinstance(bare.e, Ref) and bare.ty.name == bare.e.name):
+                bare = bare.e  # (x), +x and x | x.type are x itself
             if isinstance(bare, Ref):
                 alias_of[s.name] = bare.name
+
+    # names that are also declared inside a function or loop body (parameters, locals): only for these can an entity
+    # labelled with the name belong to something else than the top-level declaration
+    inner_names = set()
+
+    def collect_inner(stmts):
+        for st_ in stmts:
+            if isinstance(st_, lang.Func):
+                inner_names.update(n_ for _k, n_ in st_.params)
+                inner_names.update(lang.declared_names(st_.body))
+                collect_inner(st_.body)
+            elif isinstance(st_, lang.For):
+                inner_names.add(st_.var)
+                inner_names.update(lang.declared_names(st_.body))
+                collect_inner(st_.body)
+
+    collect_inner(prog.stmts)
 
     # a member selected from a bundle is that member's own wire: every name bound to the same selection is one more
     # name of one value (the statement's "aliases of one value under several names"), with or without optimisation
@@ -99,9 +117,11 @@ def run_case(case):
         while root in alias_of:
             root = alias_of[root]
         grp = {m for m in decl_line if (lambda x: (x == root) or _root(x) == root)(m)}
-        keys = {(_root(b), t) for m in grp if m in sel_key for b, t in [sel_key[m]]}
+        keys = {_root(b) for m in grp if m in sel_key for b, t in [sel_key[m]]}
         if keys:
-            same = {m for m, (b, t) in sel_key.items() if (_root(b), t) in keys}
+            # the compiler reads a selected member straight off the bundle's wire: all selections of one bundle share
+            # one producer, whose description can carry one line only
+            same = {m for m, (b, t) in sel_key.items() if _root(b) in keys}
             grp |= {m for m in decl_line if _root(m) in same or m in same}
         return grp
 
@@ -177,6 +197,7 @@ def run_case(case):
                     e = e.e
             else:
                 break
+        e = fold_ints(e)
         if isinstance(e, lang.Cond) and isinstance(e.v, lang.Num) and e.v.v == 1:
             c = e.c
             while isinstance(c, lang.Paren):
@@ -251,7 +272,7 @@ def run_case(case):
         def elsewhere(e):
             return e.desc["line"] is not None and e.desc["line"] not in group_lines
 
-        if any(e.desc["line"] in group_lines for e in labelled) and any(elsewhere(e) for e in labelled):
+        if name in inner_names and any(e.desc["line"] in group_lines for e in labelled) and any(elsewhere(e) for e in labelled):
             labelled = [e for e in labelled if not elsewhere(e)]
             anchors = [e for e in anchors if not elsewhere(e)]
         producers = [e for e in labelled if e.desc["op"] != "output anchor"]
